@@ -60,6 +60,16 @@ def _shuffle(rows, perm):
     return [rows[i] for i in order]
 
 
+def _permute_cols(tbl, colperm):
+    """Deterministic column permutation (same idea as _shuffle): a data table may list its columns in any order; record
+    maps address columns by name."""
+    if not colperm:
+        return tbl
+    n = len(tbl["cols"])
+    order = sorted(range(n), key=lambda j: (colperm[j % len(colperm)], j))
+    return {"cols": [tbl["cols"][j] for j in order], "types": [tbl["types"][j] for j in order], "rows": [[r[j] for j in order] for r in tbl["rows"]]}
+
+
 def spec_columns(case, sp):
     cols = [r["name"] for r in case["rk"]] + list(sp["kc"]) + list(sp["vc"])
     types = [r["type"] for r in case["rk"]] + list(sp["kt"])
@@ -79,7 +89,7 @@ def block_table(case, sp, perm):
     for rec in case["records"]:
         for i, krow in enumerate(sp["keys"]):
             rows.append(list(rec["key"]) + list(krow) + [rec["vals"][c] for c in sp["layout"][i]])
-    return {"cols": cols, "types": types, "rows": _shuffle(rows, perm)}
+    return _permute_cols({"cols": cols, "types": types, "rows": _shuffle(rows, perm)}, case.get("colperm"))
 
 
 def row_table(case, content, perm):
@@ -87,7 +97,7 @@ def row_table(case, content, perm):
     cols = [r["name"] for r in case["rk"]] + [case["ckeys"][c] for c in content]
     types = [r["type"] for r in case["rk"]] + [case["ctypes"][c] for c in content]
     rows = [list(rec["key"]) + [rec["vals"][c] for c in content] for rec in case["records"]]
-    return {"cols": cols, "types": types, "rows": _shuffle(rows, perm)}
+    return _permute_cols({"cols": cols, "types": types, "rows": _shuffle(rows, perm)}, case.get("colperm"))
 
 
 def norm_table(tbl):
@@ -773,6 +783,7 @@ def case_st(draw, nulls=False, closed=()):
         "specs": specs,
         "records": records,
         "perm": draw(st.lists(st.integers(0, 5), max_size=7)),
+        "colperm": draw(st.one_of(st.just([]), st.lists(st.integers(0, 3), min_size=2, max_size=6))),
         # pivot_specification asserts that all names involved are distinct: not usable with a collision
         "via": draw(st.sampled_from(["methods", "constructor"] + ([] if collide else ["pivot_specification", "pivot_blocks"]))),
         "polars_ct": draw(st.sampled_from([False, False, True])),
